@@ -474,7 +474,38 @@ def M(pattern, fn):
     return (re.compile(pattern), fn)
 
 
+def m_int_min(ex, st, args, dest_ty, fname):
+    a, b = args
+    if is_sym(a) or is_sym(b):
+        return z3.If(a <= b, a, b)
+    return min(a, b)
+
+
+def m_int_max(ex, st, args, dest_ty, fname):
+    a, b = args
+    if is_sym(a) or is_sym(b):
+        return z3.If(a >= b, a, b)
+    return max(a, b)
+
+
 COMMON = [
+    M(r"^<(u8|u16|u32|u64|usize|i8|i16|i32|i64|isize) as Ord>::min$", m_int_min),
+    M(r"^<(u8|u16|u32|u64|usize|i8|i16|i32|i64|isize) as Ord>::max$", m_int_max),
+    M(r"^(std|core)::cmp::min::<(u8|u16|u32|u64|usize|i8|i16|i32|i64|isize)>$", m_int_min),
+    M(r"^(std|core)::cmp::max::<(u8|u16|u32|u64|usize|i8|i16|i32|i64|isize)>$", m_int_max),
+    M(r"^core::num::<impl u8>::to_ascii_uppercase$", m_to_ascii_uppercase),
+    M(r"^core::num::<impl u8>::to_ascii_lowercase$", m_to_ascii_lowercase),
+    M(r"^core::num::<impl u8>::is_ascii_whitespace$", _char_pred(CHAR_PREDICATES["is_ascii_whitespace"])),
+    M(r"^core::num::<impl u8>::is_ascii_digit$", _char_pred(CHAR_PREDICATES["is_ascii_digit"])),
+    M(r"^core::num::<impl u8>::is_ascii_hexdigit$", _char_pred(CHAR_PREDICATES["is_ascii_hexdigit"])),
+    M(r"^core::num::<impl u8>::is_ascii_alphabetic$", _char_pred(CHAR_PREDICATES["is_ascii_alphabetic"])),
+    M(r"^core::num::<impl u8>::is_ascii_alphanumeric$", _char_pred(CHAR_PREDICATES["is_ascii_alphanumeric"])),
+    M(r"^core::num::<impl u8>::is_ascii_uppercase$", _char_pred(CHAR_PREDICATES["is_ascii_uppercase"])),
+    M(r"^core::num::<impl u8>::is_ascii_lowercase$", _char_pred(CHAR_PREDICATES["is_ascii_lowercase"])),
+    M(r"^core::num::<impl u8>::is_ascii_punctuation$", _char_pred(CHAR_PREDICATES["is_ascii_punctuation"])),
+    M(r"^core::num::<impl u8>::is_ascii_graphic$", _char_pred(CHAR_PREDICATES["is_ascii_graphic"])),
+    M(r"^core::num::<impl u8>::is_ascii_control$", _char_pred(CHAR_PREDICATES["is_ascii_control"])),
+    M(r"^core::num::<impl u8>::is_ascii$", _char_pred(CHAR_PREDICATES["is_ascii"])),
     M(r"^char::methods::<impl char>::is_ascii_whitespace$", _char_pred(CHAR_PREDICATES["is_ascii_whitespace"])),
     M(r"^char::methods::<impl char>::is_ascii_digit$", _char_pred(CHAR_PREDICATES["is_ascii_digit"])),
     M(r"^char::methods::<impl char>::is_ascii_hexdigit$", _char_pred(CHAR_PREDICATES["is_ascii_hexdigit"])),
